@@ -460,9 +460,6 @@ func checkSrcsim(prop, tier string) int {
 		}
 	}
 	evLog.Close()
-	if infraN > 0 {
-		infra("%d runs had harness trouble", infraN)
-	}
 
 	known := loadKnown()
 	keys := make([]string, 0, len(groups))
@@ -483,7 +480,7 @@ func checkSrcsim(prop, tier string) int {
 		run := g.Runs[0]
 		rp := minimiseSrc(pool, prop, &plan.jobs[run], g, plan.meta[run].Class)
 		rp.Run = run
-		name := fmt.Sprintf("%s-%s-seed%d-run%d.json", prop, sanitize(g.Inv), seed, run)
+		name := fmt.Sprintf("%s-%s-seed%d-run%d-%s.json", prop, sanitize(g.Inv), seed, run, shortHash(g.Sig))
 		path := filepath.Join(verifDir, "replays", name)
 		b, _ := json.MarshalIndent(rp, "", " ")
 		os.WriteFile(path, b, 0o644)
@@ -535,6 +532,9 @@ func checkSrcsim(prop, tier string) int {
 	}
 	writeEvidence(ev)
 	logf("srcsim %s done: %d runs, %d calls, %d outcome classes, %d violation groups (%d new), %d deaths", prop, len(results), calls, len(states), len(groups), newViol, pool.Restarts.Load())
+	if infraN > 0 {
+		infra("%d runs had harness trouble (results above are incomplete)", infraN)
+	}
 	if newViol > 0 {
 		return 1
 	}
